@@ -290,3 +290,190 @@ func DumpWire(c *core.Ctx) {
 		fmt.Printf("%d..%d %q\n", x.lo, x.hi, x.op)
 	}
 }
+
+// parseLengthEval interprets perBitData.parseLength for an unconstrained length (sizeRange = -1):
+// getBitsValue(n) is summarised as "the next n bits of the input" (a fresh source of n bits).
+type plOutcome struct {
+	o      core.AOutcome
+	reads  []string // the sources read, in order
+	isErr  bool
+	repeat core.AVal
+}
+
+func parseLengthEval(c *core.Ctx) ([]plOutcome, bool) {
+	fn := mustFunc(c, pAper, "perBitData.parseLength")
+	if len(fn.Params) != 3 {
+		return nil, false
+	}
+	ex := core.NewExec()
+	ex.OnCall = func(ev *core.AEvent, m *core.AMem) (core.AVal, bool) {
+		short := ev.Callee[strings.LastIndexByte(ev.Callee, '.')+1:]
+		if !strings.HasPrefix(ev.Callee, pAper+".") {
+			return core.AVal{}, false
+		}
+		switch short {
+		case "perTrace", "perBitLog":
+			return core.AVal{K: core.ATuple}, true
+		case "parseAlignBits":
+			return core.NilArg(), true
+		case "getBitsValue":
+			if len(ev.Args) == 2 {
+				if n, ok := ev.Args[1].ConstVal(); ok && n <= 64 {
+					return core.AVal{K: core.ATuple, Elems: []core.AVal{core.ArgBits(fmt.Sprintf("in%d", ev.Index), 64, int(n)), core.NilArg()}}, true
+				}
+			}
+		}
+		return core.AVal{}, false
+	}
+	args := core.DefaultArgs(fn)
+	args[0] = core.NonNilArg(args[0])
+	args[1] = core.AVal{K: core.AInt, Bits: core.ConstBits(^uint64(0), 64)} // sizeRange = -1: the general determinant
+	args[2] = core.NonNilArg(core.AVal{K: core.APtr, Path: "repeat"})
+	outs, err := ex.Run(fn, args, nil)
+	if err != nil || len(ex.Unsound) > 0 {
+		c.SoftUndecided("parseLength could not be evaluated (%v %v)", err, ex.Unsound)
+		return nil, false
+	}
+	var res []plOutcome
+	for _, o := range outs {
+		if o.Panicked || len(o.Ret) != 2 {
+			continue
+		}
+		r := plOutcome{o: o, isErr: o.Ret[1].NonNil && o.Ret[1].K == core.AUnknown}
+		for _, ev := range o.Trace {
+			if strings.HasSuffix(ev.Callee, ".getBitsValue") && ev.Ret.K == core.ATuple {
+				r.reads = append(r.reads, core.ArgName(ev.Ret.Elems[0]))
+			}
+		}
+		r.repeat = o.Mem.Load("repeat", nil)
+		res = append(res, r)
+	}
+	return res, true
+}
+
+// factRange returns the range the path has established for the source (or field) name.
+func factRange(o core.AOutcome, name string, width int) (uint64, uint64) {
+	if f, ok := o.Facts[name]; ok {
+		return f[0], f[1]
+	}
+	return 0, uint64(1)<<uint(width) - 1
+}
+
+// bitsUnderFacts replaces the bits the path has pinned (a one-bit field known to be 0 or 1) by constants.
+func bitsUnderFacts(o core.AOutcome, v core.AVal) core.AVal {
+	if v.K != core.AInt {
+		return v
+	}
+	out := make(core.BitVec, len(v.Bits))
+	for i, b := range v.Bits {
+		out[i] = b
+		if b.Kind == core.BSrc && b.More == "" && !b.Neg {
+			if f, ok := o.Facts[fmt.Sprintf("%s<%d:%d>", b.Src, b.Idx, b.Idx)]; ok && f[0] == f[1] {
+				if f[0] == 0 {
+					out[i] = core.Bit{Kind: core.BZero}
+				} else {
+					out[i] = core.Bit{Kind: core.BOne}
+				}
+			}
+		}
+	}
+	return core.AVal{K: core.AInt, Bits: out}
+}
+
+func r4lenX(c *core.Ctx) {
+	const R = "R4.len"
+	c.Rule(R, "parseLength accepts the X.691 10.9 forms: bit 8 clear → 7-bit value; bits 10 → 14-bit big-endian value over two octets; 11 → 1..4 fragments of 16384")
+	fn := mustFunc(c, pAper, "perBitData.parseLength")
+	outs, ok := parseLengthEval(c)
+	if !ok {
+		return
+	}
+	okShort, okLong, okFrag, okRange := false, false, false, true
+	sawShort, sawLong, sawFrag := false, false, false
+	detail := ""
+	for _, r := range outs {
+		if len(r.reads) == 0 {
+			continue
+		}
+		first := r.reads[0]
+		// which form is this path? read off the facts on the two top bits of the first octet
+		b7lo, b7hi := factRange(r.o, first+"<7:7>", 1)
+		b6lo, b6hi := factRange(r.o, first+"<6:6>", 1)
+		v := bitsUnderFacts(r.o, r.o.Ret[0])
+		switch {
+		case b7hi == 0: // 0nnnnnnn
+			if r.isErr {
+				continue
+			}
+			sawShort = true
+			okShort = v.K == core.AInt && v.Bits.IsCopy(6, 0, first, 0) && v.Bits.IsConst(len(v.Bits)-1, 7, 0) && len(r.reads) == 1
+			if !okShort {
+				detail = "short form yields " + v.String()
+			}
+		case b7lo == 1 && b6hi == 0: // 10nnnnnn nnnnnnnn
+			if r.isErr {
+				continue
+			}
+			sawLong = true
+			okLong = len(r.reads) == 2 && v.K == core.AInt && v.Bits.IsCopy(13, 8, first, 0) && v.Bits.IsCopy(7, 0, r.reads[1], 0) && v.Bits.IsConst(len(v.Bits)-1, 14, 0)
+			if !okLong {
+				detail = "long form yields " + v.String()
+			}
+		case b7lo == 1 && b6lo == 1: // 11mmmmmm
+			mlo, mhi := factRange(r.o, first+"<5:0>", 6)
+			if r.isErr {
+				// refusals must cover exactly m = 0 and m > 4
+				if !(mhi == 0 || mlo >= 5) {
+					okRange = false
+					detail = fmt.Sprintf("a fragment count in [%d,%d] is refused", mlo, mhi)
+				}
+				continue
+			}
+			sawFrag = true
+			okFrag = len(r.reads) == 1 && v.K == core.AInt && v.Bits.IsCopy(19, 14, first, 0) && v.Bits.IsConst(13, 0, 0) && v.Bits.IsConst(len(v.Bits)-1, 20, 0)
+			if mlo < 1 || mhi > 4 {
+				okRange = false
+				detail = fmt.Sprintf("fragment counts in [%d,%d] are accepted", mlo, mhi)
+			}
+			if !okFrag {
+				detail = "fragment form yields " + v.String()
+			}
+		}
+	}
+	c.Check(okShort && sawShort, R, "aper.parseLength:short-form", fn.Pos(), "0nnnnnnn → n", "a first octet with bit 8 clear must yield its low 7 bits (%s)", detail)
+	c.Check(okLong && sawLong, R, "aper.parseLength:long-form", fn.Pos(), "10nnnnnn nnnnnnnn → 14-bit value", "a first octet 10nnnnnn must combine its low 6 bits (high part) with the next octet (low part) (%s)", detail)
+	c.Check(okFrag && okRange && sawFrag, R, "aper.parseLength:fragment-form", fn.Pos(), "11mmmmmm → m*16384, m in 1..4", "a first octet 11mmmmmm must yield m*16384 fragments and reject m outside 1..4 (value ok %v, range check ok %v; %s)", okFrag, okRange, detail)
+}
+
+// r14repeatX: *repeat is true only together with a non-zero length (R14.loop, parseLength part).
+func r14repeatX(c *core.Ctx, R string) {
+	fn := mustFunc(c, pAper, "perBitData.parseLength")
+	outs, ok := parseLengthEval(c)
+	if !ok {
+		return
+	}
+	okR, sawTrue := true, false
+	why := ""
+	for _, r := range outs {
+		k, isK := r.repeat.ConstVal()
+		if isK && k == 0 {
+			continue
+		}
+		if !isK {
+			okR, why = false, "*repeat is not a constant on some path: "+r.repeat.String()
+			continue
+		}
+		sawTrue = true
+		// length = m << 14 with the path's facts saying m >= 1
+		v := r.o.Ret[0]
+		if r.isErr || len(r.reads) == 0 || v.K != core.AInt {
+			okR, why = false, "*repeat is set on a refusing path"
+			continue
+		}
+		mlo, _ := factRange(r.o, r.reads[0]+"<5:0>", 6)
+		if !(v.Bits.IsCopy(19, 14, r.reads[0], 0) && mlo >= 1) {
+			okR, why = false, fmt.Sprintf("*repeat is set with length %s (fragment count at least %d)", v.String(), mlo)
+		}
+	}
+	c.Check(okR && sawTrue, R, "aper.parseLength:repeat-implies-progress", fn.Pos(), "*repeat = true only with length 16384*k (k checked to be 1..4)", "parseLength must set *repeat only when it returns a non-zero fragment length (otherwise the fragment loops spin on adversarial input): %s", why)
+}
